@@ -116,7 +116,9 @@ def run_one(item, api, keep_clock=False, want_lay=True):
     else:
         src = R.render(item["prog"])[0] if mode == "ast" else item["src"]
         log, out = run_source(api, src, memory_limit=item.get("ml"), wall=item.get("wall", 30.0), keep_clock=keep_clock)
-    return {"id": item["id"], "log": log, "out": out, "hl": bool(want_lay), "lay": layouts(src) if want_lay else []}
+    # so: the order in which this process iterates a set of strings - shows that the hash seed the check asked for is in force
+    return {"id": item["id"], "log": log, "out": out, "hl": bool(want_lay), "lay": layouts(src) if want_lay else [],
+            "so": "".join({"alpha", "beta", "gamma", "delta", "eps", "zeta", "eta", "theta"})}
 
 
 def run_history(case, api):
